@@ -107,6 +107,109 @@ fn judge(c: &Case, want: HdrLoad, got: &Transcript) -> Result<(), String> {
     }
 }
 
+// --- headers one after the other at the same address ------------------------------
+
+#[derive(Clone, Debug, Serialize, Deserialize)]
+pub struct SeqCase {
+    /// complete header images (16 header bytes + tag area), each a multiple of 8 long
+    pub steps: Vec<Hex>,
+}
+
+/// The images are written one after the other to the same address and loaded
+/// in one process (a forked child): every decision must be the one of the
+/// table for that image alone, whatever was loaded there before.
+fn eval_seq(c: &SeqCase, obs: &mut Obs) -> Result<(), String> {
+    if c.steps.iter().any(|s| s.0.len() < 16 || s.0.len() % 8 != 0 || s.0.len() > 4096) {
+        return Err("malformed case".into());
+    }
+    let r = mb2_sandbox::run_child(|| {
+        let mut buf = Aligned::new(&vec![0u8; 4096]);
+        for (i, img) in c.steps.iter().enumerate() {
+            let mut all = vec![0xEEu8; 4096];
+            all[..img.0.len()].copy_from_slice(&img.0);
+            buf.overwrite(&all);
+            let t = load_transcript(buf.as_ptr());
+            let want = predict_hdr_load(&img.0);
+            let ok = match (want, t.get("load")) {
+                (HdrLoad::Ok, Some(Val::Txt(s))) if s == "Ok" => t.get("h.length") == Some(&Val::U(le32(&img.0, 8) as u64)) && t.get("h.verify") == Some(&Val::B(true)),
+                (w, Some(Val::Err(e))) => e == w.text(),
+                _ => false,
+            };
+            if !ok {
+                return format!("E header {} of {} at the same address ({}): expected {}, got {}", i + 1, c.steps.len(), hex(&img.0[..16]), want.text(), t.render().replace('\n', " ")).into_bytes();
+            }
+        }
+        b"OK".to_vec()
+    });
+    match r {
+        mb2_sandbox::ChildResult::Done(b) if b == b"OK" => {}
+        mb2_sandbox::ChildResult::Done(b) => return Err(String::from_utf8_lossy(&b[2.min(b.len())..]).into_owned()),
+        mb2_sandbox::ChildResult::Signal(sig) => return Err(format!("loading {} headers one after the other at the same address crashed the process (signal {sig})", c.steps.len())),
+        _ => {
+            obs.inconclusive("child did not report");
+            return Ok(());
+        }
+    }
+    let verdicts: Vec<bool> = c.steps.iter().map(|s| predict_hdr_load(&s.0) == HdrLoad::Ok).collect();
+    let mixed = verdicts.iter().any(|x| *x) && verdicts.iter().any(|x| !*x);
+    obs.class(if mixed { "!accepted-and-rejected" } else { "uniform" });
+    if mixed {
+        obs.nontrivial(fnv(format!("{:?}", c.steps).as_bytes()));
+        obs.sample(json!({"headers": c.steps.iter().map(|s| hex(&s.0[..16])).collect::<Vec<_>>()}));
+    }
+    Ok(())
+}
+
+fn strategy_seq(_: &Ctx) -> BoxedStrategy<SeqCase> {
+    // a valid header and 1..=3 twins of it: the same bit flipped in one, two or three
+    // of its four words (so that sums and xors over the words can stay the same),
+    // a word replaced, or the valid header again
+    let twin = (0u8..6, 0u32..32, 0usize..4, 0usize..4, any::<u32>());
+    (prop_oneof![Just(0u32), Just(4u32)], (2u32..=8).prop_map(|k| 8 * k), any::<u64>(), proptest::collection::vec(twin, 1..=3), any::<bool>())
+        .prop_map(|(arch, len, key, twins, valid_first)| {
+            let mut base: Vec<u8> = (0..len as usize).map(|i| marker(key, i)).collect();
+            put32(&mut base, 0, HDR_MAGIC);
+            put32(&mut base, 4, arch);
+            put32(&mut base, 8, len);
+            put32(&mut base, 12, model_checksum(HDR_MAGIC, arch, len));
+            let mut steps = vec![Hex(base.clone())];
+            for (kind, bit, i, j, r) in twins {
+                let mut t = base.clone();
+                let flip = |t: &mut Vec<u8>, w: usize, m: u32| {
+                    let v = le32(t, 4 * w) ^ m;
+                    put32(t, 4 * w, v);
+                };
+                match kind {
+                    0 => flip(&mut t, i, 1 << bit),
+                    1 | 2 => {
+                        flip(&mut t, i, 1 << bit);
+                        flip(&mut t, if i == j { (j + 1) % 4 } else { j }, 1 << bit);
+                    }
+                    3 => {
+                        for w in 0..4 {
+                            if w != i {
+                                flip(&mut t, w, 1 << bit);
+                            }
+                        }
+                    }
+                    4 => put32(&mut t, 4 * i, r),
+                    _ => {}
+                }
+                // keep the image as long as its length word asks for (up to 4 KiB)
+                let l = le32(&t, 8) as usize;
+                if l % 8 == 0 && (16..=4096).contains(&l) {
+                    t.resize(l, 0x5A);
+                }
+                steps.push(Hex(t));
+            }
+            if !valid_first {
+                steps.swap(0, 1);
+            }
+            SeqCase { steps }
+        })
+        .boxed()
+}
+
 // --- the same decisions wherever the header lives ------------------------------
 
 fn addr_cases() -> Vec<Case> {
@@ -422,6 +525,17 @@ pub fn subs() -> Vec<Box<dyn Sub>> {
             enumerate: Some(enumerate_huge),
             enum_exhaustive: false,
             eval: eval_huge,
+        }),
+        Box::new(PropSub::<SeqCase> {
+            name: "load-sequences",
+            rule: "2..=4 header images written one after the other to the same address and loaded in one process: a valid header and twins of it - the same bit flipped in one, two or three of its four words (sums and xors over the words stay the same), one word replaced, or the valid header again. Oracle: every decision is the decision table's for that image alone. Non-trivial = a sequence with an accepted and a rejected header; distinct by the sequence",
+            profiles: Profiles::Both,
+            quick: 40000,
+            thorough: 2000000,
+            strategy: strategy_seq,
+            enumerate: None,
+            enum_exhaustive: false,
+            eval: eval_seq,
         }),
         Box::new(LoopSub {
             name: "special-addresses",
